@@ -574,7 +574,9 @@ func (r *Run) Isolated(name string, n int, describe func(i int) (key string, c a
 				}
 				out := filepath.Join(os.Getenv("VERIF_TMP"), fmt.Sprintf("iso-%s-%d-%d.jsonl", name, s, from))
 				os.Remove(out)
-				cmd := exec.Command(os.Args[0], "-tier", r.Tier, "-iso-worker", name, "-iso-from", fmt.Sprint(from), "-iso-to", fmt.Sprint(to), "-iso-out", out, "-workers", "1")
+				// the worker gets the parent's own arguments (tier, seams, …) followed by the overrides
+				wargs := append(append([]string{}, os.Args[1:]...), "-tier", r.Tier, "-iso-worker", name, "-iso-from", fmt.Sprint(from), "-iso-to", fmt.Sprint(to), "-iso-out", out, "-workers", "1")
+				cmd := exec.Command(os.Args[0], wargs...)
 				var stderr strings.Builder
 				cmd.Stderr = &tailWriter{b: &stderr, max: 6000}
 				cmd.Stdout = nil
